@@ -54,7 +54,7 @@ func genCase(prop string) func(t *rapid.T) Case {
 			kinds = []string{"addref", "release", "setctx", "finish", "finish", "finish", "finish", "invalidate", "invalidate", "consumer", "consumer", "consumer", "consumer", "cancel", "crelease", "crelease", "finishcb", "finishcb", "finishcb", "probe", "cancelroot"}
 		}
 		if prop != "C10" {
-			kinds = append(kinds, "consumer")
+			kinds = append(kinds, "consumer", "consumer", "cancel", "crelease")
 		}
 		genOp := rapid.Custom(func(t *rapid.T) Op {
 			op := Op{K: rapid.SampledFrom(kinds).Draw(t, "k")}
@@ -537,6 +537,13 @@ func body(c *sched.Ctl, cs Case, v *ev.Verdict) {
 		for _, cn := range conss {
 			if cn.m == nil {
 				continue
+			}
+			if cn.returned && cn.m.live && len(c.Pending()) == 0 && (cn.err != nil || cn.callerRel || cn.kind == "access") {
+				// the call is over and the caller holds nothing (it got an error, or released what
+				// it got): the reference the call had registered must be gone, otherwise the value
+				// stays pinned although nobody references it
+				fail("C08", "refcount:consumer-reference-leaked", "%s: %s #%d returned (value %d, error %v, caller released=%v) but the reference it registered is still counted", where, cn.kind, cn.id, cn.val, cn.err, cn.callerRel)
+				return
 			}
 			st := cn.m.state()
 			switch cn.kind {
